@@ -1411,6 +1411,26 @@ func (ff *FuncFacts) term0(e ast.Expr) *Term {
 			return nil
 		}
 		return TIndex(a, b)
+	case *ast.SliceExpr:
+		if x.Slice3 {
+			return nil
+		}
+		b := ff.term(x.X)
+		if b == nil {
+			return nil
+		}
+		lo, hi := TConst("_"), TConst("_")
+		if x.Low != nil {
+			if lo = ff.term(x.Low); lo == nil {
+				return nil
+			}
+		}
+		if x.High != nil {
+			if hi = ff.term(x.High); hi == nil {
+				return nil
+			}
+		}
+		return &Term{K: 'o', Name: "slice", Args: []*Term{b, lo, hi}}
 	case *ast.TypeAssertExpr:
 		a := ff.term(x.X)
 		if a == nil || x.Type == nil {
@@ -1988,7 +2008,43 @@ func (ff *FuncFacts) assign(x *ast.AssignStmt, st *State) *State {
 					rs := &Term{K: 'r', Name: "res0", Pos: call.Lparen}
 					st = st.add(mkFact(true, "eq", lt, rs))
 				}
+				st = ff.resultShape(st, lt, call)
 			}
+		}
+	}
+	// x = f(x): the shape of the result is still known
+	for i := range x.Lhs {
+		if lts[i] == nil || i >= len(rts) || rts[i] == nil || !rts[i].mentions(lts[i].String()) || len(x.Rhs) != len(x.Lhs) {
+			continue
+		}
+		if call, ok := unparen(x.Rhs[i]).(*ast.CallExpr); ok {
+			st = ff.resultShape(st, lts[i], call)
+		}
+	}
+	return st
+}
+
+// resultShape adds what is known about the value a call just produced for
+// the location lt, independently of its arguments: the length of a make, the
+// non-emptiness of a cleaned path.
+func (ff *FuncFacts) resultShape(st *State, lt *Term, call *ast.CallExpr) *State {
+	if lt == nil || !(lt.K == 'v' || lt.K == 'f') {
+		return st
+	}
+	info := ff.info()
+	switch callee := typeutil.Callee(info, call).(type) {
+	case *types.Builtin:
+		if callee.Name() == "make" && len(call.Args) >= 2 {
+			if _, isSlice := info.TypeOf(call).Underlying().(*types.Slice); isSlice {
+				if n := ff.term(call.Args[1]); n != nil && ff.pureTerm(n) && !n.mentions(lt.String()) {
+					st = st.add(mkFact(true, "eq", TCall("len", nil, lt), n))
+				}
+			}
+		}
+	case *types.Func:
+		switch callee.FullName() {
+		case "path.Clean", "path/filepath.Clean":
+			st = st.add(mkFact(false, "eq", TStr(""), lt))
 		}
 	}
 	return st
@@ -2012,7 +2068,7 @@ func (ff *FuncFacts) pureTerm(t *Term) bool {
 			if x.Obj == nil { // builtin len/cap/min/max
 				return
 			}
-			if !isFn || !ff.eng.pureCallee(fn) {
+			if !isFn || !(ff.eng.pureCallee(fn) || pureStdlib[fn.FullName()]) {
 				ok = false
 			}
 		}
@@ -3158,4 +3214,12 @@ func wholeUse(t *Term, obj types.Object) bool {
 		}
 	}
 	return false
+}
+
+// pureStdlib lists standard-library functions whose result depends only on
+// their (immutable string / scalar) arguments.
+var pureStdlib = map[string]bool{
+	"strings.Index": true, "strings.IndexByte": true, "strings.LastIndex": true, "strings.HasPrefix": true, "strings.HasSuffix": true,
+	"strings.TrimLeft": true, "strings.TrimSpace": true, "strings.TrimPrefix": true, "strings.TrimSuffix": true,
+	"path.Clean": true, "path/filepath.Clean": true,
 }
